@@ -654,9 +654,10 @@ impl Debugger {
 
     /// Returns `None` if `pc + offset` is out of bounds.
     fn add_address_offset(&self, address: u16, offset: i16) -> Option<u16> {
-        let address = (address as i16).checked_add(offset)?;
+        // Wide arithmetic: addresses above 0x7FFF must not be treated as negative
+        let address = address as i32 + offset as i32;
         // Check address in user program area
-        if address >= self.orig() as i16 && (address as u16) < USER_MEMORY_END {
+        if address >= self.orig() as i32 && address < USER_MEMORY_END as i32 {
             Some(address as u16)
         } else {
             None
